@@ -90,7 +90,10 @@ func c09Enabled(x *scn.Exec) []mc.Event {
 	if n < 2 {
 		for _, ty := range c09Types {
 			for _, sender := range []string{"B", "C"} {
-				for _, idk := range []string{"target", "fresh"} {
+				for _, idk := range []string{"target", "fresh", "target-malformed"} {
+					if idk == "target-malformed" && (x.SwapOf(x.A) == nil || ty.t == mtCancel || ty.t == mtSwapInReq || ty.t == mtSwapOutReq) {
+						continue // cancel has nothing to validate; malformed requests with a known id are refused anyway
+					}
 					if idk == "target" && x.SwapOf(x.A) == nil {
 						continue
 					}
@@ -140,7 +143,8 @@ func c09Apply(x *scn.Exec, e mc.Event) bool {
 		sender = scn.IDC
 	}
 	id := c09FreshID
-	if parts[2] == "target" {
+	malformed := parts[2] == "target-malformed"
+	if parts[2] == "target" || malformed {
 		id = x.SwapOf(x.A).SwapId.String()
 	}
 	// separate the timers of swaps created by different events (same-instant
@@ -175,7 +179,19 @@ func c09Apply(x *scn.Exec, e mc.Event) bool {
 			}
 		}
 	}
-	_, pan := x.A.DeliverRaw(sender, fmt.Sprintf("%x", ty.t), c09Payload(x, ty.t, id))
+	payload := c09Payload(x, ty.t, id)
+	if malformed {
+		// a well-formed envelope whose content fails the message's own validation
+		var m map[string]any
+		_ = json.Unmarshal(payload, &m)
+		for _, k := range []string{"pubkey", "privkey", "tx_id"} {
+			if _, ok := m[k]; ok {
+				m[k] = "00"
+			}
+		}
+		payload, _ = json.Marshal(m)
+	}
+	_, pan := x.A.DeliverRaw(sender, fmt.Sprintf("%x", ty.t), payload)
 	node.Settle()
 	var vs []mc.Violation
 	if pan != nil {
